@@ -539,12 +539,26 @@ def _f1_strip_after_bookkeeping(clause: str, case) -> bool:
                for i in range(len(final)) for j in range(i + 1, len(final)))
 
 
+def _deduplicated(ids: Sequence[str]) -> List[str]:
+    """ids after the documented de-duplication step (a repeated id gets the first free _N suffix)"""
+    ids = list(ids)
+    if len(set(ids)) == len(ids):
+        return ids
+    taken: set = set()
+    for i, rid in enumerate(ids):
+        if rid in taken:
+            ids[i] = _pinned_unique(rid, taken)
+        taken.add(ids[i])
+    return ids
+
+
 def _f2_contig_number_too_wide(clause: str, case) -> bool:
-    """long headers off and an over-long id/name carries a contig/scaffold/c number of six or more digits"""
+    """long headers off and an id (as it stands after de-duplication) resp. name longer than 16 characters
+    carries a contig/scaffold/c number of six or more digits"""
     if case.get("fam") != "records" or case["long"]:
         return False
     if clause == "id-at-most-16-unless-long-allowed":
-        texts = case["ids"]
+        texts = _deduplicated(case["ids"])
     elif clause == "name-at-most-16-unless-long-allowed":
         texts = case.get("names") or case["ids"]
     else:
